@@ -1,0 +1,135 @@
+//go:build verif
+
+// Contracts for package didnuts, checked by /verif/govc (comment-only; not part of any normal build).
+
+package didnuts
+
+// Collaborators: ASSUMED not to modify memory visible to the subscriber.
+//@ func (didstore.Store).*
+//@   trusted
+//@   benign
+//@ func (didstore.Store).Resolve
+//@   trusted
+//@   benign
+//@   ensures isNilIface(result.2) ==> result.0 != nil
+//@ func (dag.Transaction).*
+//@   trusted
+//@   pure
+//@ func (resolver.NutsKeyResolver).ResolvePublicKey
+//@   trusted
+//@   benign
+//@ func (network.Transactions).DiscoverServices
+//@   trusted
+//@   benign
+//@ func (did.Validator).Validate
+//@   trusted
+//@   benign
+//@ func ResolveControllers
+//@   trusted
+//@   benign
+//@ func crypto.Thumbprint
+//@   trusted
+//@   pure
+
+// ---- C19: null entries are refused before the validators that dereference them ----
+//@ func (nilEntryValidator).Validate
+//@   prop C09 C19
+//@   safety
+//@   modifies nothing
+//@   loop 1 invariant forall k int :: 0 <= k && k < $i ==> document.VerificationMethod[k] != nil
+//@   ensures [no-null-verification-method] isNilIface(result) ==> forall k int :: 0 <= k && k < len(document.VerificationMethod) ==> document.VerificationMethod[k] != nil
+
+//@ func NetworkDocumentValidator
+//@   prop C09 C19
+//@   ensures [null-guard-runs-first] typeOf(result) == *did.MultiValidator
+//@        && len(result.(*did.MultiValidator).Validators) == 4
+//@        && typeOf(result.(*did.MultiValidator).Validators[0]) == nilEntryValidator
+//@        && typeOf(result.(*did.MultiValidator).Validators[1]) == did.W3CSpecValidator
+//@        && typeOf(result.(*did.MultiValidator).Validators[2]) == verificationMethodValidator
+//@        && typeOf(result.(*did.MultiValidator).Validators[3]) == basicServiceValidator
+
+// ---- C09: a did:nuts document is stored only when signed by the DID's own key or a controller's key ----
+
+//@ func checkTransactionIntegrity
+//@   prop C09
+//@   modifies nothing
+//@   ensures [payload-type-hash-time] isNilIface(result) ==> transaction.PayloadType() == DIDDocumentType && !transaction.PayloadHash().Empty() && !transaction.SigningTime().IsZero()
+
+//@ func (ambassador).isUpdate
+//@   prop C09
+//@   pure
+//@   ensures result == isNilIface(transaction.SigningKey())
+
+//@ func (*ambassador).callback
+//@   prop C09 C19
+//@   safety
+//@   call (*ambassador).handleCreateDIDDocument #1 requires [create-only-after-integrity-and-validation-with-embedded-key]
+//@        isNilIface(ret(call checkTransactionIntegrity #1)) && arg(call checkTransactionIntegrity #1, 0) == tx
+//@     && isNilIface(ret(call encoding/json.Unmarshal #1)) && arg(call encoding/json.Unmarshal #1, 0) == payload
+//@     && did(call (did.Validator).Validate #1) && isNilIface(ret(call (did.Validator).Validate #1))
+//@     && arg(call (did.Validator).Validate #1, 0) == ret(call NetworkDocumentValidator #1)
+//@     && same(arg(call (did.Validator).Validate #1, 1), nextDIDDocument)
+//@     && !n.isUpdate(tx) && arg(1) == tx && same(arg(2), nextDIDDocument)
+//@   call (*ambassador).handleUpdateDIDDocument #1 requires [update-only-after-integrity-and-validation-without-embedded-key]
+//@        isNilIface(ret(call checkTransactionIntegrity #1)) && arg(call checkTransactionIntegrity #1, 0) == tx
+//@     && isNilIface(ret(call encoding/json.Unmarshal #1)) && arg(call encoding/json.Unmarshal #1, 0) == payload
+//@     && did(call (did.Validator).Validate #1) && isNilIface(ret(call (did.Validator).Validate #1))
+//@     && same(arg(call (did.Validator).Validate #1, 1), nextDIDDocument)
+//@     && n.isUpdate(tx) && arg(1) == tx && same(arg(2), nextDIDDocument)
+//@   ensures [handler-errors-propagate] (did(call (*ambassador).handleCreateDIDDocument #1) && !isNilIface(ret(call (*ambassador).handleCreateDIDDocument #1)))
+//@        || (did(call (*ambassador).handleUpdateDIDDocument #1) && !isNilIface(ret(call (*ambassador).handleUpdateDIDDocument #1))) ==> !isNilIface(result)
+
+//@ func (*ambassador).handleCreateDIDDocument
+//@   prop C09 C19
+//@   safety
+//@   assume-benign
+//@   call (didstore.Store).Add #1 requires [new-did-is-the-thumbprint-of-the-embedded-signing-key]
+//@        !isNilIface(transaction.SigningKey())
+//@     && isNilIface(ret(call crypto.Thumbprint #1).1) && arg(call crypto.Thumbprint #1, 0) == transaction.SigningKey()
+//@     && proposedDIDDocument.ID.ID == ret(call crypto.Thumbprint #1).0
+//@     && same(arg(1), proposedDIDDocument) && same(arg(2).Ref, transaction.Ref()) && same(arg(2).PayloadHash, transaction.PayloadHash())
+//@     && arg(2).Clock == transaction.Clock() && arg(2).Previous == transaction.Previous() && same(arg(2).SigningTime, transaction.SigningTime())
+//@   ensures [success-only-if-stored] isNilIface(result) ==> did(call (didstore.Store).Add #1) && isNilIface(ret(call (didstore.Store).Add #1))
+
+// The relationships come from documents that passed NetworkDocumentValidator on admission (no null
+// entries): stated as a precondition.
+//@ func (ambassador).findKeyByThumbprint
+//@   prop C09 C19
+//@   safety
+//@   assume-benign
+//@   requires forall k int :: 0 <= k && k < len(didDocumentAuthKeys) ==> didDocumentAuthKeys[k].VerificationMethod != nil
+//@   ensures [found-key-has-that-thumbprint] isNilIface(result.1) && !isNilIface(result.0) ==>
+//@        did(call bytes.Equal #1) && ret(call bytes.Equal #1) == true && arg(call bytes.Equal #1, 0) == thumbPrint
+//@     && arg(call bytes.Equal #1, 1) == ret(call (jwk.Key).Thumbprint #1).0 && isNilIface(ret(call (jwk.Key).Thumbprint #1).1)
+//@     && arg(call (jwk.Key).Thumbprint #1, 0) == result.0 && result.0 == ret(call (did.VerificationMethod).JWK #1).0
+
+//@ func (*ambassador).resolveControllers
+//@   prop C09
+//@   assume-benign
+
+//@ func (*ambassador).handleUpdateDIDDocument
+//@   prop C09 C19
+//@   safety
+//@   assume-benign
+//@   call (didstore.Store).Add #1 requires [update-signed-by-a-capability-invocation-key-of-a-controller]
+//@        currentDIDDocument != nil
+//@     && isNilIface(ret(call (*ambassador).resolveControllers #1).1) && same(arg(call (*ambassador).resolveControllers #1, 1), *currentDIDDocument)
+//@     && arg(call (*ambassador).resolveControllers #1, 2) == transaction
+//@     && isNilIface(ret(call (resolver.NutsKeyResolver).ResolvePublicKey #1).1)
+//@     && arg(call (resolver.NutsKeyResolver).ResolvePublicKey #1, 1) == transaction.SigningKeyID()
+//@     && arg(call (resolver.NutsKeyResolver).ResolvePublicKey #1, 2) == transaction.Previous()
+//@     && isNilIface(ret(call jwk.FromRaw #1).1) && arg(call jwk.FromRaw #1, 0) == ret(call (resolver.NutsKeyResolver).ResolvePublicKey #1).0
+//@     && isNilIface(ret(call (jwk.Key).Thumbprint #1).1) && arg(call (jwk.Key).Thumbprint #1, 0) == ret(call jwk.FromRaw #1).0
+//@     && isNilIface(ret(call (ambassador).findKeyByThumbprint #1).1) && !isNilIface(ret(call (ambassador).findKeyByThumbprint #1).0)
+//@     && arg(call (ambassador).findKeyByThumbprint #1, 1) == ret(call (jwk.Key).Thumbprint #1).0
+//@     && arg(call (ambassador).findKeyByThumbprint #1, 2) == controllerVerificationRelationships
+//@     && same(arg(1), proposedDIDDocument) && same(arg(2).Ref, transaction.Ref())
+//@   loop 2 invariant true
+//@   ensures [success-only-if-stored] isNilIface(result) ==> did(call (didstore.Store).Add #1) && isNilIface(ret(call (didstore.Store).Add #1))
+
+// Non-database errors are fatal (never retried); success is reported only when the callback succeeded.
+//@ func (*ambassador).handleNetworkEvent
+//@   prop C09 C14
+//@   ensures [true-only-on-success] result.0 == true ==> isNilIface(result.1) && did(call (*ambassador).callback #1) && isNilIface(ret(call (*ambassador).callback #1))
+//@   ensures [callback-sees-the-event] arg(call (*ambassador).callback #1, 1) == event.Transaction && arg(call (*ambassador).callback #1, 2) == event.Payload
+//@   ensures [failure-is-an-error] !isNilIface(ret(call (*ambassador).callback #1)) ==> result.0 == false && !isNilIface(result.1)
